@@ -117,8 +117,6 @@ type MWCase struct {
 	Cache int `json:"cache,omitempty"`
 	// Frac: write times in quarters of a second (histories without vacuum only: cutoffs are seconds)
 	Frac bool `json:"frac,omitempty"`
-	// NoSteerK8: witness of known finding K8 only
-	NoSteerK8 bool `json:"no_steer_k8,omitempty"`
 }
 
 type mwGenCfg struct {
